@@ -234,6 +234,10 @@ def run(F, R, view_min, scope, floor, rule="ACC"):
                     if not nn or nn[0] not in ("Le", "Lt"):
                         continue
                     op, x, y = nn[0], PN.strip_casts(nn[1]), PN.strip_casts(strip_sites(nn[2]))
+                    if x[0] == "field" and x[2] == "0" and x[1][0] == "bin" and x[1][1].endswith("WithOverflow"):
+                        x = ("bin", x[1][1].replace("WithOverflow", ""), x[1][2], x[1][3])      # dev: overflow-checked arithmetic
+                    if y[0] == "field" and y[2] == "0" and y[1][0] == "bin" and y[1][1].endswith("WithOverflow"):
+                        y = ("bin", y[1][1].replace("WithOverflow", ""), y[1][2], y[1][3])
                     cy = PN.const_eval(y)
                     if cy is not None and x[0] == "bin" and x[1].startswith("Sub") and x[2][0] == "field" and x[3][0] == "field" \
                             and x[2][2] == "end" and x[3][2] == "start" and FX.cut(_nr(x[2][1]), 9) == R0 and FX.cut(_nr(x[3][1]), 9) == R0:
